@@ -15,6 +15,8 @@ Violation keys:  <law>:<region>:<units of a>,<units of b>
             | number-rule | unit-eq | unit-order | float-order | bool
   region in both-zero-offset   (both magnitudes zero and an offset unit involved: F1)
             delta-vs-offset    (an offset unit against a delta_ unit: F85)
+            system-<name>       (hash only: under default system <name>, or 'switch:<name>' for a live default_system switch)
+            context-<name>      (cross-dim only: ordering across dimensions while context <name> is active)
             dimensionless-base-units (hash only: equal quantities whose root-unit containers differ
                                 only in dimensionless base units: F2)
             other
@@ -379,6 +381,149 @@ def operand_term(n):
     return "ONone" if n is None else f"(ONum {coq_mag(n)})"
 
 
+
+# ------------------------------------------------------------------ default systems and contexts (pint alone)
+SYSTEMS = [None, "mks", "cgs", "imperial", "US", "SI", "atomic", "Planck"]
+LIVE_SWITCHES = ["atomic", "cgs", "Planck", "imperial"]
+
+
+def system_registry(label, nit=F):
+    """label: a system name / None (constructor argument) or 'switch:<name>' (default_system assigned on a live
+    registry, before anything was hashed or converted — stale-cache effects of later switches are C13/C14's)"""
+    import pint
+    if isinstance(label, str) and label.startswith("switch:"):
+        ureg = pint.UnitRegistry(non_int_type=nit, cache_folder=None)
+        ureg.default_system = label.split(":", 1)[1]
+        return ureg
+    kw = {} if label is None else {"system": label}
+    return pint.UnitRegistry(non_int_type=nit, cache_folder=None, **kw)
+
+
+def hash_law_one(ureg, ph, a, b):
+    """a, b = (magnitude, units dict).  None when the law says nothing (not equal, or the system's base units of an
+    operand are not exact rationals); else (ok, description)"""
+    qa = ureg.Quantity(a[0], regk.mkuc(ureg, a[1]))
+    qb = ureg.Quantity(b[0], regk.mkuc(ureg, b[1]))
+    for q in (qa, qb):
+        base = Obs(lambda: regk.ucd(ureg._get_base_units(q._units)[1]))
+        if base.err or ph.root(base.val) is None:
+            return None                     # float factors (bohr, planck_*): outside the exact clause
+    e1, e2 = Obs(lambda: plain_bool(qa == qb)), Obs(lambda: plain_bool(qb == qa))
+    if e1.val is not True or e2.val is not True:
+        return None
+    h = Obs(lambda: (hash(qa) == hash(qb), qb in {qa}, {qa: "x"}.get(qb) == "x", qa in {qb}))
+    ok = h.err is None and all(h.val)
+    return ok, f"a == b but (hash equal, b in {{a}}, dict lookup, a in {{b}}) = {h.js()}"
+
+
+def system_pairs(ph, temps_offset, temps_mult, rng, n_other):
+    """equal pairs: offset vs multiplicative, offset vs offset, multiplicative vs multiplicative temperatures, and a
+    few other dimensions whose system base unit differs from the root unit (mass: gram/kilogram/pound)"""
+    out = []
+    for o in temps_offset:
+        for m in temps_mult + temps_offset:
+            if m == o:
+                continue
+            for x in (0, 25, -40, F(3, 2)):
+                y = ph.equalise(x, {o: F(1)}, {m: F(1)})
+                if y is not None:
+                    out.append(((x, {o: F(1)}), (y, {m: F(1)})))
+    for m1 in temps_mult:
+        for m2 in temps_mult:
+            if m1 != m2:
+                y = ph.equalise(F(5), {m1: F(1)}, {m2: F(1)})
+                if y is not None:
+                    out.append(((F(5), {m1: F(1)}), (y, {m2: F(1)})))
+    other = [("inch", "centimeter"), ("gram", "kilogram"), ("pound", "gram"), ("newton", "dyne"), ("yard", "meter"),
+             ("joule", "erg"), ("percent", "ppm"), ("hertz", "becquerel"), ("minute", "second"), ("watt", "milliwatt")]
+    for a, b in other[:n_other]:
+        y = ph.equalise(F(3, 2), {a: F(1)}, {b: F(1)})
+        if y is not None:
+            out.append(((F(3, 2), {a: F(1)}), (y, {b: F(1)})))
+    return out
+
+
+LOG_PAIRS = [((0, "decibelmilliwatt"), (1, "milliwatt")), ((0, "decibelmicrowatt"), (1, "microwatt")),
+             ((0, "decibel"), (1, "")), ((0, "decibelwatt"), (1, "watt")), ((1, "octave"), (2, ""))]
+
+
+def run_systems(ck, fails, thorough):
+    """== => equal hash (and set / dict lookup) under every default system, incl. a live default_system switch"""
+    rng = random.Random(ck.seed + 5)
+    n = nskip = 0
+    for label in SYSTEMS + ["switch:" + s for s in LIVE_SWITCHES]:
+        ureg = system_registry(label)
+        ph = Phys(ureg)
+        name = label or "default"
+        toff = [t for t in ("degree_Celsius", "degree_Fahrenheit", "degree_Reaumur") if t in ureg._units]
+        tmul = [t for t in ("kelvin", "degree_Rankine", "millikelvin", "atomic_unit_of_temperature", "delta_degree_Celsius")
+                if Obs(lambda: ureg.get_name(t)).err is None]
+        for t in tmul:
+            ureg.get_name(t)
+        tmul = [t for t in tmul if ph.root({t: F(1)}) is not None]
+        for a, b in system_pairs(ph, toff, tmul, rng, 10 if thorough else 6):
+            if region(ph, a, b) != "other":
+                continue                      # delta vs offset: F85's region
+            r = hash_law_one(ureg, ph, a, b)
+            if r is None:
+                nskip += 1
+                continue
+            n += 1
+            ck.case(key=("system-hash", name, ustr(a[1]), ustr(b[1]), mstr(a[0])))
+            if not r[0]:
+                fails.append((f"hash:system-{name}:{ustr(a[1])},{ustr(b[1])}",
+                              f"default system {name}: {r[1]}; a = {mstr(a[0])} [{ustr(a[1])}], b = {mstr(b[0])} [{ustr(b[1])}]",
+                              {"law": "system-hash", "system": label, "a": [mstr(a[0]), {k: str(v) for k, v in a[1].items()}],
+                               "b": [mstr(b[0]), {k: str(v) for k, v in b[1].items()}]}))
+    # logarithmic vs linear (float registry: the Fraction registry cannot evaluate log converters); values are exact
+    # powers, and only pairs equal in both directions are judged
+    for label in [None, "mks", "cgs", "imperial", "US", "SI"]:
+        ureg = system_registry(label, float)
+        name = label or "default"
+        for (x, ua), (y, ub) in LOG_PAIRS:
+            qa, qb = ureg.Quantity(x, ua), ureg.Quantity(y, ub)
+            if Obs(lambda: plain_bool(qa == qb) and plain_bool(qb == qa)).val is not True:
+                nskip += 1
+                continue
+            h = Obs(lambda: (hash(qa) == hash(qb), qb in {qa}, {qa: "x"}.get(qb) == "x"))
+            n += 1
+            ck.case(key=("system-hash-log", name, ua, ub))
+            if h.err or not all(h.val):
+                fails.append((f"hash:system-{name}:{ua},{ub or 'dimensionless'}",
+                              f"default system {name} (float registry): {x} {ua} == {y} {ub or 'dimensionless'} but (hash equal, set lookup, dict lookup) = {h.js()}",
+                              {"law": "system-hash-log", "system": label, "a": [x, ua], "b": [y, ub]}))
+    ck.count("system-hash", n)
+    ck.count("system-hash:skipped-inexact-or-unequal", nskip)
+
+
+CONTEXT_PAIRS = [("spectroscopy", (F(1, 2), {"meter": F(1)}), (3, {"hertz": F(1)})),
+                 ("spectroscopy", (1, {"electron_volt": F(1)}), (3, {"nanometer": F(1)})),
+                 ("boltzmann", (1, {"kelvin": F(1)}), (1, {"joule": F(1)})),
+                 ("energy", (1, {"joule": F(1)}), (1, {"mole": F(-1), "joule": F(1)})),
+                 ("chemistry", (1, {"gram": F(1)}), (1, {"mole": F(1)}))]
+
+
+def run_contexts(ck, fails):
+    """an active context does not make quantities of different dimensionality orderable"""
+    w = World(F)
+    n = 0
+    for ctx, a, b in CONTEXT_PAIRS:
+        if ctx not in w.ureg._contexts or w.ph.dim(a[1]) is None or w.ph.dim(a[1]) == w.ph.dim(b[1]):
+            continue
+        qa, qb = w.q(*a), w.q(*b)
+        kw = {"mw": w.q(18, {"gram": F(1), "mole": F(-1)})} if ctx == "chemistry" else {}
+        for x, y in ((qa, qb), (qb, qa)):
+            with w.ureg.context(ctx, **kw):
+                o = Obs(lambda: cmp4(x, y))
+            n += 1
+            ck.case(key=("ctx-order", ctx, str(x.units), str(y.units)))
+            if o.err != "XDim":
+                fails.append((f"cross-dim:context-{ctx}:{ustr(a[1])},{ustr(b[1])}",
+                              f"with context {ctx} active, ordering {x} against {y} gave {o.js()} instead of DimensionalityError",
+                              {"law": "context-order", "context": ctx, "a": [mstr(a[0]), {k: str(v) for k, v in a[1].items()}],
+                               "b": [mstr(b[0]), {k: str(v) for k, v in b[1].items()}]}))
+    ck.count("context-order", n)
+
 # ------------------------------------------------------------------ the run
 def detect_quirks(w):
     """replay the _refuted witnesses on the implementation to select the model's switches"""
@@ -402,6 +547,10 @@ def run(ck):
         "units whose factor goes through a non-integer power (planck_*, franklin, alpha-dependent) are outside the exact clauses",
         "agreement of <, > with the order of root-unit magnitudes is claimed for positively scaled units only (the registry has negative constants such as electron_g_factor); exactly-one-of and model correspondence are checked for all",
         "logarithmic units are outside the model (C06); offset units in compound position only through their error class",
+        "the model hashes in root units of the default system only; under the other default systems (cgs, imperial, US, SI, atomic, "
+        "Planck, None, and default_system assigned on a live registry before first use) == => equal hash / set / dict lookup is an "
+        "oracle on pint alone, restricted to operands whose system base units have exact rational factors (bohr, planck_* are floats); "
+        "log-vs-linear pairs in the float registry on exact powers only",
         "Python's hash() is idealised as injective on (class, magnitude, units); hash(NaN) is identity-based and excluded",
     ]
     ok = ck.coq_build(["Properties/C05.vo", "Model/QCompareRun.vo", "Gen/DefaultReg.vo"])
@@ -714,6 +863,10 @@ def run(ck):
                           {"law": "float", "a": [repr(x), a], "b": [repr(y), b]}))
     ck.count("float-order", nfl)
 
+    # ---- (10) every default system (incl. a live switch): == => same hash, set and dict lookup; (11) contexts
+    run_systems(ck, fails, thorough)
+    run_contexts(ck, fails)
+
     # ---- model vs implementation
     # shuffled so that every shard gets the same mix of heavy (KPair) and light cases
     order = list(range(len(cases)))
@@ -775,6 +928,16 @@ def replay(ck, path):
                 for k in range(3):
                     if len({i, j, k}) == 3 and Q3[i] == Q3[j] and Q3[j] == Q3[k] and not Q3[i] == Q3[k]:
                         fl.append((data.get("key", "transitivity"), f"a == b, b == c, a != c with (a, b, c) = operands {i}, {j}, {k}"))
+    elif rp["law"] == "system-hash":
+        ureg = system_registry(rp["system"])
+        r = hash_law_one(ureg, Phys(ureg), spec(rp["a"]), spec(rp["b"]))
+        if r is not None and not r[0]:
+            fl.append((data.get("key", "hash"), r[1]))
+    elif rp["law"] == "system-hash-log":
+        ureg = system_registry(rp["system"], float)
+        qa, qb = ureg.Quantity(*rp["a"]), ureg.Quantity(*rp["b"])
+        if qa == qb and qb == qa and not (hash(qa) == hash(qb) and qb in {qa}):
+            fl.append((data.get("key", "hash"), "a == b but hash / set lookup disagree"))
     else:
         print("(no automatic replay for this law; the operands are listed above)")
         return 0
